@@ -631,7 +631,16 @@ def rule_f(ctx: Context, R: Reporter, fin: FuncInfo, run: FuncInfo):
     R.floor("C05.f", "warm-up predicates in the step run methods", n, 3)
 
 
+def rule_stateless(ctx: Context, R: Reporter):
+    """C05.g  the step object is a function of the state object it works on: no method other than the constructor stores
+    state-derived data in the step object for a later call to read back."""
+    from ..util import stateless_steps_rule
+
+    stateless_steps_rule(ctx, R, "C05.g", ("Reweighter",), "temperatures are chosen from weights / ESS values of an earlier history")
+
+
 def run(ctx: Context, R: Reporter):
+    R.guard(rule_stateless, ctx, R)
     fin = finalizer(ctx)
     rw = reweight_run(ctx, fin)
     wfn = _weights_fn(ctx)
@@ -648,6 +657,8 @@ def variants():
     rw = "tempest/steps/reweight.py"
     core = "tempest/core.py"
     return [
+        Variant("g-benign-per-step-scratch", "benign", _scratch_variant()),
+        Variant("g-reweighter-keeps-first-logw", "bad", insert_after(rw, "Reweighter._compute_metric_and_weights", "logw, _ = self.state.compute_logw_and_logz(beta)", "if getattr(self, '_lw', None) is None:\n    self._lw = logw\nlogw = self._lw"), ["C05.g"], quick=True),
         Variant("a-weights-of-upper", "bad", replace_stmt(rw, "Reweighter.run", "weights = weights_prev", "weights = weights_upper"), ["C05.a"], quick=True),
         Variant("a-ess-of-prev", "bad", replace_stmt(rw, "Reweighter.run", "ess_est = ess_upper", "ess_est = ess_prev"), ["C05.a"]),
         Variant("a-logz-at-upper", "bad", replace_expr(rw, "Reweighter.run", "self.state.compute_logw_and_logz(beta)", "self.state.compute_logw_and_logz(beta_upper)"), ["C05.a"], quick=True),
@@ -723,3 +734,15 @@ def _rewrite_upper_test(rw):
         return False
 
     return edit(rw, "Reweighter._find_beta_upper_limit", fn)
+
+
+def _scratch_variant():
+    """the reweighter keeps the log-weights of the current step in an attribute that run() empties first"""
+    from ..variants import chain, insert_after, insert_before
+
+    rw = "tempest/steps/reweight.py"
+    return chain(
+        insert_after(rw, "Reweighter.__init__", "self.BETA_TOLERANCE = BETA_TOLERANCE", "self._step_logw = {}"),
+        insert_after(rw, "Reweighter._compute_metric_and_weights", "logw, _ = self.state.compute_logw_and_logz(beta)", "self._step_logw[beta] = logw\nn_seen = len(self._step_logw)"),
+        insert_before(rw, "Reweighter.run", "iter_val = self.state.get_current('iter') + 1", "self._step_logw = {}"),
+    )
